@@ -39,7 +39,7 @@ BASES_Q = {
     "Circle": "curved:0", "Ellipse": "curved:2", "Sphere": "curved:4", "Ellipsoid": "curved:6",
 }
 # xy-plane shapes whose stored normal is -z (clockwise input): distance_to_surface has a separate branch for them
-BASES_X = {"ConvexPolygon": "ConvexPolygon/down", "ConvexSpheropolygon": "ConvexSpheropolygon/down"}
+BASES_X = {"ConvexPolygon": "ConvexPolygon/down", "ConvexSpheropolygon": "ConvexSpheropolygon/down", "Polyhedron": "Polyhedron/scrambled"}  # + faces not yet sorted: a query must not sort them
 BASES_T = {
     "ConvexPolyhedron": "ConvexPolyhedron/lattice", "Polyhedron": "Polyhedron/lsolid", "ConvexSpheropolyhedron": "ConvexSpheropolyhedron/lattice",
     "Polygon": "Polygon/cw", "ConvexPolygon": "ConvexPolygon/xy", "ConvexSpheropolygon": "ConvexSpheropolygon/chiral",
